@@ -25,13 +25,24 @@ def _embed(v2):
     return out
 
 
-def case_rod(kind, n_elems, taper, bent, rot_idx, density, seed):
+def case_rod(kind, n_elems, taper, bent, rot_idx, density, seed, finalize=False):
     planar = bodies.rod_grid_is_planar(kind)
     rots = bodies.rotations_2d() if planar else bodies.rotations_3d()
     rot = rots[rot_idx % len(rots)]
     # the forcing grid is constructed on the STRAIGHT rod; the rod is bent / rotated / twisted afterwards
     rod = bodies.make_rod(n_elems, taper, bent, rot=rot, planar=planar, seed=seed, deform=False)
     grid = bodies.make_rod_grid(kind, rod, density=density)
+    if finalize:
+        # as every coupled simulation does: the rod is handed to a PyElastica simulator and finalised AFTER
+        # its forcing grid was built (finalize() moves the rod's arrays into block memory and re-binds them)
+        import elastica as ea
+
+        class _Env(ea.BaseSystemCollection, ea.Constraints, ea.Forcing, ea.Damping):
+            pass
+
+        env = _Env()
+        env.append(rod)
+        env.finalize()
     bodies.deform_rod(rod, bent, rot, planar, seed)
     grid.compute_lag_grid_position_field()
     d = grid.grid_dim
@@ -245,6 +256,8 @@ def run(r) -> None:
                         rots = range(nrot) if (not quick or (n_elems == 3 and taper and bent and density == dens[0])) else (0, nrot - 1)
                         for ri in rots:
                             rod_cases.append(dict(kind=kind, n_elems=n_elems, taper=taper, bent=bent, rot_idx=ri, density=density, seed=r.seed))
+                        if bent and density == dens[0]:
+                            rod_cases.append(dict(kind=kind, n_elems=n_elems, taper=taper, bent=bent, rot_idx=nrot - 1, density=density, seed=r.seed, finalize=True))
     r.run_cases("rod-grids", "rod", rod_cases, chunksize=8)
     rigid_cases = []
     for kind in bodies.RIGID:
